@@ -22,7 +22,7 @@ RULE = (
     "construction. Wrappers, drawn recursively: block quote, bullet / ordered list (1-3 items), backtick and colon "
     "directives (note / warning / admonition with title) with {no options, ':k: v' block, '---' block} x {0,1,2 blank "
     "lines before the body} x {0,1 blank line before the closing fence}, colon div, and include of a generated file "
-    "(with / without start-line / start-after). (enum) every wrapper shape to depth 2 (thorough: 3) around every leaf kind; (random) "
+    "(with / without start-line / start-after / both). (enum) every wrapper shape to depth 2 (thorough: 3) around every leaf kind; (random) "
     "Hypothesis trees to depth 5. Oracle on the pre-transform doctree: the node holding a marker has line == true "
     "line; its chain of container ancestors (block_quote, bullet_list / enumerated_list, list_item, admonition node, "
     "container) carries, in order, the first lines of the corresponding wrappers; every MyST warning for a marked "
@@ -154,7 +154,11 @@ def emit(node, ctx, line0, chain, file):
         if node["start_line"] == 1 and node["pad"]:
             # start-line: skip the padding; lines stay relative to the included file
             opts = [f":start-line: {len(pad)}"]
-        elif node["start_line"] == 2 and node["pad"]:
+        elif node["start_line"] == 3 and node["pad"] >= 2:
+            # both: start-line skips the first padding lines, start-after a marker on the last one
+            ctx.files[fname] = "\n".join(["pad line"] * (node["pad"] - 1) + ["pad STARTAFTER", ""] + inner) + "\n"
+            opts = [f":start-line: {node['pad'] - 1}", ":start-after: STARTAFTER"]
+        elif node["start_line"] >= 2 and node["pad"]:
             # start-after a marker text that sits on the last padding line
             ctx.files[fname] = "\n".join(["pad line"] * (node["pad"] - 1) + ["pad STARTAFTER", ""] + inner) + "\n"
             opts = [":start-after: STARTAFTER"]
@@ -386,7 +390,7 @@ def tree_st(allow_include=True, max_leaves=8):
     if not allow_include:
         return top
     inc = st.builds(lambda pad, sl, ch: {"t": "include", "pad": pad, "start_line": sl, "ch": ch},
-                    st.integers(0, 3), st.sampled_from([0, 1, 2]), top)
+                    st.integers(0, 4), st.sampled_from([0, 1, 2, 3, 3]), top)
     return st.builds(lambda a, b, c: {"t": "seq", "ch": a["ch"] + [b] + c["ch"]}, top, inc, top)
 
 
